@@ -219,6 +219,14 @@ package net
 //@   ensures ip.isLegacy && uint32(ip.lower) != ^uint32(0) ==> (result.lower == ip.lower+1 && result.higher == 0)
 //@   modifies nothing
 
+// BytesInAddr uses floating point; its contract is decided by running the real
+// function on all 256 inputs (back end: enumeration).
+//@ contract BytesInAddr
+//@   props C15 C16 C19 C17 C18
+//@   exhaustive
+//@   ensures uint16(result) == (uint16(pfxlen)+7)/8
+//@   modifies nothing
+
 // The de-duplication caches (global maps behind a mutex) are not verified; their
 // effect on callers is that of the identity.
 //@ contract Prefix.Dedup
